@@ -733,6 +733,81 @@ def int_conversions(rep: C.Report) -> None:
         ob.detail += f"{type(e).__name__}: {e}"
 
 
+POW_WITNESSES = ["1 round 1e400", "1 round -(1 e 400)", "1 round (10^400)", "2^(2^40)", "10^(10^9)", "1 e 1000000000", "2^-(10^9)", "99999999999^99999999"]
+
+
+def bounded_powers(rep: C.Report) -> None:
+    """Ob11: no operator of #expr builds an integer power with a data-dependent, unbounded exponent (`10 ** digits` with
+    digits taken from the expression runs for hours on `1 round 1e400`).  AST fact over parserfns.py: every `a ** b` whose
+    exponent is not a literal sits behind a comparison on the exponent variable (a bound), or both operands are converted to
+    float first / math.pow is used (which raises OverflowError at once).  Otherwise witness expressions are replayed under a
+    10 s alarm; only an expansion that does not return is a violation."""
+    import ast as _ast
+
+    ob = rep.add(C.Ob("Ob11 #expr: integer powers with a data-dependent exponent are bounded (evaluation time)", "AST dominance fact + replay under an alarm", ["parserfns.py (every ** with a non-literal exponent)"], "all BinOp(Pow) nodes of parserfns.py; replay: 8 witness expressions, 10 s each"))
+    try:
+        tree = _ast.parse(open(os.path.join(C.SRC, "parserfns.py")).read())
+        sites = []
+        for fn in [n for n in _ast.walk(tree) if isinstance(n, (_ast.FunctionDef, _ast.Lambda))]:
+            body = fn.body if isinstance(fn.body, list) else [fn.body]
+            for st in body:
+                for n in _ast.walk(st):
+                    if isinstance(n, _ast.BinOp) and isinstance(n.op, _ast.Pow) and not isinstance(n.right, _ast.Constant):
+                        names = {x.id for x in _ast.walk(n.right) if isinstance(x, _ast.Name)}
+                        guarded = False
+                        if isinstance(fn, _ast.FunctionDef):
+                            for c in _ast.walk(fn):
+                                if not (isinstance(c, _ast.Compare) and c.lineno < n.lineno and names & {x.id for x in _ast.walk(c) if isinstance(x, _ast.Name)}):
+                                    continue
+                                # a bound on the magnitude: abs(exp) <op> constant, or a chained comparison lo < exp < hi
+                                has_abs = any(isinstance(x, _ast.Call) and isinstance(x.func, _ast.Name) and x.func.id == "abs" for x in _ast.walk(c))
+                                consts = [x for x in [c.left] + list(c.comparators) if isinstance(x, (_ast.Constant, _ast.UnaryOp))]
+                                if (has_abs and consts) or (len(c.ops) == 2 and len(consts) == 2):
+                                    guarded = True
+                        floaty = any(isinstance(x, _ast.Call) and isinstance(x.func, _ast.Name) and x.func.id == "float" for x in _ast.walk(n))
+                        sites.append((n.lineno, _ast.unparse(n)[:40], guarded or floaty))
+        # nested defs are visited twice (as part of the outer function too): dedupe by line
+        seen = {}
+        for ln, txt, ok in sites:
+            seen[ln] = (txt, seen.get(ln, (txt, False))[1] or ok)
+        unbounded = [(ln, t) for ln, (t, ok) in sorted(seen.items()) if not ok]
+        ob.conditions = ob.queries = ob.paths = max(len(seen), 1)
+        ob.confirmed_conditions = len(seen) - len(unbounded)
+        ob.samples.append({"powers_with_non_literal_exponent": [f"parserfns.py:{ln} {t}" for ln, (t, _) in sorted(seen.items())], "unbounded": [f"parserfns.py:{ln} {t}" for ln, t in unbounded]})
+        if not unbounded and not C.distrust():
+            ob.verdict = C.DISCHARGED
+            ob.confirmed_conditions = ob.conditions
+            return
+        import signal
+
+        from wikitextprocessor import Wtp
+
+        def _alarm(sig, frm):
+            raise TimeoutError()
+
+        w = Wtp(quiet=True, quiet_output=True)
+        old = signal.signal(signal.SIGALRM, _alarm)
+        try:
+            for e in POW_WITNESSES:
+                w.start_page("T")
+                signal.alarm(10)
+                try:
+                    w.expand("{{#expr:" + e + "}}")
+                except TimeoutError:
+                    v = rep.violation("expand(" + repr("{{#expr:" + e + "}}") + ")", "expand() does not return within 10 s (an integer power with an exponent taken from the expression is being built)", {"doc": "{{#expr:" + e + "}}"})
+                    ob.verdict = C.VIOLATED if v.known is None else C.KNOWN
+                    return
+                except Exception:  # noqa: BLE001 - exceptions are Ob2a's subject
+                    w.expand_stack = []
+                finally:
+                    signal.alarm(0)
+        finally:
+            signal.signal(signal.SIGALRM, old)
+        ob.detail = f"unbounded power(s) {unbounded} but the witness expressions return at once -> inconclusive"
+    except Exception as e:  # noqa: BLE001
+        ob.detail += f"{type(e).__name__}: {e}"
+
+
 def lookup_terminates(rep: C.Report) -> None:
     """Ob9: the page lookups the expander relies on cannot recurse without bound.  Call-graph fact over class Wtp: none of
     get_page, get_page_resolve_redirect, get_page_body, page_exists reaches itself through self.<method>() calls (a redirect
@@ -905,6 +980,7 @@ def run(rep: C.Report) -> None:
     namespace_index(rep)
     int_conversions(rep)
     lookup_terminates(rep)
+    bounded_powers(rep)
     placeholder_input(rep)
     depth_guard(rep)
     loop_check_order(rep)
